@@ -110,6 +110,14 @@ def run(e: Engine, rep: Report):
              'with settled recipients still on record as outstanding')
     rep.tables.add('c03.MARK_WRITERS')
     r313(e, rep)
+    rep.rule('R3.14', '= C01-R1.5: the kind the queue passes to '
+             'set_recipients_delivered (a set) supports every operation the '
+             'backends apply to the index argument - an operation that '
+             'raises for a set (list + set) leaves the call before the marks '
+             'are written: the settled recipients stay on record as '
+             'outstanding and are delivered again after a restart')
+    from ..kinds import Kinds as _Kinds
+    _c01.r15(e, rep, _Kinds(e), 'R3.14')
     rep.floor('R3.1', 2, 'attempt spawn sites')
     rep.floor('R3.7', 2, 'release sites of the in-flight mark')
 
